@@ -198,7 +198,8 @@ def steady_state_transport_solver(
 
         tfftp[0, msk] = tfftq0[msk] * Kzinv / eigval
         tfftp[:, 0, 0] = p000 - tfftq0[0, 0] * Kzinv * h
-        tfftq[:, msk] = tfftq0[msk] * np.exp(-eigval * h)
+        # one row per output level
+        tfftq[:, msk] = tfftq0[msk] * np.exp(-eigval * h[:, np.newaxis])
         tfftp[:, msk] = tfftq[:, msk] * Kzinv / eigval
 
     else:
@@ -236,19 +237,21 @@ def steady_state_transport_solver(
 
         # solve degenerated problem for (n,m) = (0,0)
         # with trapezoidal rule
-        lvl = 0
+        # output slot k receives the state at node levels[k], whatever the
+        # order of the requested levels
         tfftp00 = p000
 
         for i in range(nz - 1):
 
-            if i in levels:
-                tfftp[lvl, 0, 0] = tfftp00
-                lvl += 1
+            for k in range(nlvls):
+                if levels[k] == i:
+                    tfftp[k, 0, 0] = tfftp00
 
             tfftp00 = tfftp00 - tfftq0[0, 0] * dz[i] * (0.5 / Kz[i] + 0.5 / Kz[i + 1])
 
-        if nz - 1 in levels:
-            tfftp[lvl, 0, 0] = tfftp00
+        for k in range(nlvls):
+            if levels[k] == nz - 1:
+                tfftp[k, 0, 0] = tfftp00
 
     # shift green function in Fourier space to measurement point
     if footprint:
@@ -346,14 +349,14 @@ def ivp_solver(fftpq, profiles, z, levels, Lx, Ly):
     fftp = np.zeros((nlvls, nxy), dtype=np.complex128)
     fftq = np.zeros((nlvls, nxy), dtype=np.complex128)
 
-    lvl = 0
-
+    # output slot k receives the state at node levels[k], whatever the
+    # order of the requested levels
     for i in range(nz - 1):
 
-        if i in levels:
-            fftp[lvl, ...] = fftpi
-            fftq[lvl, ...] = fftqi
-            lvl += 1
+        for k in range(nlvls):
+            if levels[k] == i:
+                fftp[k, ...] = fftpi
+                fftq[k, ...] = fftqi
 
         Ti = -(Kx[i] * Lx**2 + Ky[i] * Ly**2) - 1j * u[i] * Lx - 1j * v[i] * Ly
         Kzinv = 1.0 / Kz[i]
@@ -368,8 +371,9 @@ def ivp_solver(fftpq, profiles, z, levels, Lx, Ly):
         fftqi = c * fftpi + d * fftqi
         fftpi = dum
 
-    if nz - 1 in levels:
-        fftp[lvl, ...] = fftpi
-        fftq[lvl, ...] = fftqi
+    for k in range(nlvls):
+        if levels[k] == nz - 1:
+            fftp[k, ...] = fftpi
+            fftq[k, ...] = fftqi
 
     return fftpi, fftqi, fftp, fftq
